@@ -69,3 +69,123 @@ class PyFile:
     def __exit__(self, *a):
         self.close()
         return False
+
+
+# ---------------------------------------------------------------- file system / repository (C19)
+class InjectedFault(OSError):
+    pass
+
+
+class FakeFS:
+    """POSIX-like file store on a dict.  The `fail_at`-th mutating call (open for writing, each
+    write(), rename) raises OSError; unlink and reads never fail (the property's fault model)."""
+
+    def __init__(self, files=None, fail_at=-1):
+        self.files = dict(files or {})
+        self.fail_at = fail_at
+        self.mutations = 0
+        self.fired = False
+
+    def _mutating(self, what):
+        k = self.mutations
+        self.mutations += 1
+        if k == self.fail_at:
+            self.fired = True
+            raise InjectedFault("injected fault at mutating call %d (%s)" % (k, what))
+
+    def open(self, name, mode="r", encoding=None):
+        fs = self
+        if "w" in mode:
+            self._mutating("open " + name)
+            self.files[name] = ""
+
+            class W:
+                def write(self_, s):
+                    fs._mutating("write " + name)
+                    fs.files[name] = fs.files[name] + s
+
+                def close(self_):
+                    pass
+
+                def __enter__(self_):
+                    return self_
+
+                def __exit__(self_, *a):
+                    return False
+            return W()
+        if name not in self.files:
+            raise FileNotFoundError(2, "No such file", name)
+        data = self.files[name]
+
+        class R:
+            def readlines(self_):
+                return data.splitlines(True)
+
+            def read(self_):
+                return data
+
+            def close(self_):
+                pass
+
+            def __enter__(self_):
+                return self_
+
+            def __exit__(self_, *a):
+                return False
+        return R()
+
+    # the parts of `os` used by debian_support
+    def rename(self, a, b):
+        self._mutating("rename")
+        if a not in self.files:
+            raise FileNotFoundError(2, "No such file", a)
+        self.files[b] = self.files.pop(a)
+
+    def unlink(self, a):
+        if a not in self.files:
+            raise FileNotFoundError(2, "No such file", a)
+        del self.files[a]
+
+    def exists(self, a):
+        return a in self.files
+
+
+class FakeOS:
+    def __init__(self, fs):
+        self._fs = fs
+        self.rename = fs.rename
+        self.unlink = fs.unlink
+        self.path = self
+
+    def exists(self, a):
+        return self._fs.exists(a)
+
+
+class FakeRepo:
+    """Objects published under URLs: {url: list of str lines}.  Absent -> IOError (like urllib)."""
+
+    def __init__(self, objects):
+        self.objects = objects
+        self.requests = []
+
+    def gunzip_lines(self, url):
+        self.requests.append(url)
+        if url not in self.objects:
+            raise IOError("404 " + url)
+        return list(self.objects[url])
+
+    def urlopen(self, url):
+        self.requests.append(url)
+        if url not in self.objects:
+            raise IOError("404 " + url)
+        f = PyFile("".join(self.objects[url]).encode("utf-8"))
+        return f
+
+
+def digest_sha256(lines):
+    """Injective, whitespace-free stand-in for read_lines_sha256."""
+    return "2" + "".join(l if isinstance(l, str) else l.decode("utf-8") for l in lines).encode("utf-8").hex()
+
+
+def digest_sha1(lines):
+    return "1" + "".join(l if isinstance(l, str) else l.decode("utf-8") for l in lines).encode("utf-8").hex()
